@@ -873,8 +873,8 @@ Proof.
     destruct (ensure_bucket c s b0) as [s1 [e|]] eqn:Ee;
       pose proof (ensure_bucket_gov _ _ _ _ _ _ _ _ _ _ Ee HI Hg) as Hg1; [exact Hg1|].
     destruct (ensure_bucket_spec _ _ _ _ _ Ee HI) as (HI1 & _ & _).
-    pose proof (put_object_survives s1 b0 k0 body m _ _ _ _ _ HI1 Hg1 Hn) as Hs.
-    destruct (put_object s1 b0 k0 body m) as [s2 [[e|] vid]]; exact Hs.
+    pose proof (put_object_survives s1 b0 k0 body (carry_meta s1 b0 k0 m) _ _ _ _ _ HI1 Hg1 Hn) as Hs.
+    destruct (put_object s1 b0 k0 body (carry_meta s1 b0 k0 m)) as [s2 [[e|] vid]]; exact Hs.
   - (* OGet *)
     destruct (ensure_bucket c s b0) as [s1 [e|]] eqn:Ee;
       pose proof (ensure_bucket_gov _ _ _ _ _ _ _ _ _ _ Ee HI Hg) as Hg1; [exact Hg1|].
@@ -919,8 +919,8 @@ Proof.
       pose proof (ensure_bucket_gov _ _ _ _ _ _ _ _ _ _ Ee HI Hg) as Hg1; [exact Hg1|].
     destruct (ensure_bucket_spec _ _ _ _ _ Ee HI) as (HI1 & _ & _).
     destruct (get_object s1 sb sk) as [e|v0 sv0]; [exact Hg1|].
-    pose proof (put_object_survives s1 b0 k0 (vd_body v0) (merge_meta m (vd_meta v0)) _ _ _ _ _ HI1 Hg1 Hn) as Hs.
-    destruct (put_object s1 b0 k0 (vd_body v0) (merge_meta m (vd_meta v0))) as [s2 [[e|] vid]]; exact Hs.
+    pose proof (put_object_survives s1 b0 k0 (vd_body v0) (carry_meta s1 b0 k0 (merge_meta m (vd_meta v0))) _ _ _ _ _ HI1 Hg1 Hn) as Hs.
+    destruct (put_object s1 b0 k0 (vd_body v0) (carry_meta s1 b0 k0 (merge_meta m (vd_meta v0)))) as [s2 [[e|] vid]]; exact Hs.
   - (* OSetVersioning *)
     destruct (ensure_bucket c s b0) as [s1 [e|]] eqn:Ee;
       pose proof (ensure_bucket_gov _ _ _ _ _ _ _ _ _ _ Ee HI Hg) as Hg1; [exact Hg1|].
@@ -954,7 +954,9 @@ Qed.
 Lemma put_fresh_id c s b k body m s1 id :
   Inv s -> step c s (OPut b k body m) = (s1, RPut (Some id)) ->
   (forall b' k' id' v sv, get_object_version s b' k' id' = OObj v sv -> (id' < id)%N) /\
-  exists v sv, get_object_version s1 b k id = OObj v sv /\ vd_body v = body /\ vd_meta v = m /\
+  exists v sv, get_object_version s1 b k id = OObj v sv /\ vd_body v = body /\
+               vd_meta v = carry_meta (fst (ensure_bucket c s b)) b k m /\
+               (forall kv, In kv m -> In kv (vd_meta v)) /\
                vd_null v = false /\ vd_marker v = false.
 Proof.
   intros HI H. cbn [step] in H.
@@ -965,8 +967,9 @@ Proof.
   - intros b' k' id' v sv Hg. destruct (gov_id _ _ _ _ _ _ HI Hg) as (_ & Hle & _). lia.
   - rewrite gov_set_same. unfold bver. cbn [b_objs]. rewrite get_set_eq.
     unfold obj_ver. cbn [o_data vd_vid]. rewrite N.eqb_refl.
-    eexists _, _. split; [reflexivity|]. cbn [vd_body vd_meta vd_null vd_marker]. rewrite Ev.
-    repeat split; reflexivity.
+    eexists _, _. split; [reflexivity|]. cbn [vd_body vd_meta vd_null vd_marker fst]. rewrite Ev.
+    split; [reflexivity|]. split; [reflexivity|]. split; [|split; reflexivity].
+    intros kv Hin. apply carry_meta_keeps. exact Hin.
 Qed.
 
 (* (c) in an Enabled bucket a plain delete of an existing key only adds a delete marker: the
